@@ -128,7 +128,12 @@ func genEnc(cfg Config, emit func(string, bool, []string)) {
 
 	ops = nil
 	for i := 0; i < 400; i++ {
-		d := make([]byte, r.IntN(5))
+		n := r.IntN(5)
+		if i%8 == 7 {
+			// long keys: prefix lengths around and beyond 256 bits (two length bytes in use)
+			n = []int{31, 32, 33, 40, 64, 65}[r.IntN(6)]
+		}
+		d := make([]byte, n)
 		for j := range d {
 			if r.IntN(3) == 0 {
 				d[j] = 0xff
@@ -137,6 +142,9 @@ func genEnc(cfg Config, emit func(string, bool, []string)) {
 			}
 		}
 		l := r.IntN(len(d)*8 + 3)
+		if i%8 == 7 && r.IntN(2) == 0 {
+			l = len(d)*8 - r.IntN(9)
+		}
 		ops = append(ops, fmt.Sprintf("lpm %s %d", hx(d), l))
 	}
 	emit("lpm", true, ops)
